@@ -251,3 +251,41 @@ func VerifRefsWithLocalCache(argb []uint32, cacheBits int, refs []VerifRef) []Ve
 	}
 	return out
 }
+
+// VerifGroup is what readHuffmanCodes derives for one group of five codes.
+type VerifGroup struct {
+	IsTrivialLiteral bool
+	IsTrivialCode    bool
+	UsePackedTable   bool
+	LiteralARB       uint32
+	PackedBits       []int
+	PackedValue      []uint32
+}
+
+// VerifReadGroup writes the five codes with StoreHuffmanCode and reads them
+// back with the decoder's readHuffmanCodes (no meta image), returning the
+// fast-path flags and the packed table of the resulting HTreeGroup.
+func VerifReadGroup(lens [HuffmanCodesPerMetaCode][]uint8, cacheBits int) (VerifGroup, error) {
+	bw := bitio.NewLosslessWriter(64)
+	for j := 0; j < HuffmanCodesPerMetaCode; j++ {
+		StoreHuffmanCode(bw, verifTreeOfLengths(lens[j]))
+	}
+	for i := 0; i < 4; i++ { // keep the reader away from the end of the stream
+		bw.WriteBits(0, 32)
+	}
+	data := append([]byte(nil), bw.Finish()...)
+	dec := &Decoder{br: bitio.NewLosslessReader(data)}
+	if err := dec.readHuffmanCodes(1, 1, cacheBits, false); err != nil {
+		return VerifGroup{}, err
+	}
+	g := &dec.hdr.htreeGroups[0]
+	out := VerifGroup{IsTrivialLiteral: g.IsTrivialLiteral, IsTrivialCode: g.IsTrivialCode,
+		UsePackedTable: g.UsePackedTable, LiteralARB: g.LiteralARB}
+	if g.UsePackedTable {
+		for i := range g.PackedTable {
+			out.PackedBits = append(out.PackedBits, g.PackedTable[i].Bits)
+			out.PackedValue = append(out.PackedValue, g.PackedTable[i].Value)
+		}
+	}
+	return out, nil
+}
